@@ -94,10 +94,15 @@ Proof.
   - intros Hd.
     destruct (msg_ctx_change _ _ _ _ _ _ _ Hcfg HI Hwf Hne H Erc Erc')
       as [->|who ok _ _ _ _ _ ->|who ok _ _ _ _ ->|who ok _ _ _ _ ->
-          |who provs cap timeout freq total ok capo _ _ _ _ ->|r who code out ov ok q -> Hc Hq Hrc'];
+          |who provs cap timeout freq total ok capo _ _ _ _ ->|r who code out ov ok q -> Hc Hq Hrc'
+          |who provs thr cap timeout freq total capo _ _ _ _ _ ->
+          |who _ _ _ _ _ ->|who _ _ _ _ ->|who _ _ _ _ ->];
       try (exfalso; apply Hd; reflexivity).
     { exfalso. apply Hd. pose proof (upd_ctx_fixed rc provs capo timeout freq total) as Hf.
       cbv zeta in Hf. tauto. }
+    2:{ exfalso. apply Hd.
+        pose proof (upd_thr_fixed rc (if thr =? 0 then c_thr rc else thr) provs capo timeout freq total) as Hf.
+        cbv zeta in Hf. tauto. }
     cbn [handle] in H.
     destruct (respond_exact _ _ _ _ _ _ _ _ _ Hcfg HI H)
       as (q' & rc0 & _ & _ & _ & Hrc0 & _ & Hnd & Hb & _ & _ & _ & _ & E4).
